@@ -84,7 +84,7 @@ CONDITION_TEMPLATES = [
     "r = [i for i in range({E}) if i > {E}]\n",
 ]
 
-DEGENERATE = ["", " ", "\n", "\n\n\n", "\t", "   \n  \n", "\ufeff", "\ufeffx = 1\n", "\x00", "x = 1\x00\n", "#", "# only a comment", "pass", "...", "\\", "\\\n",
+DEGENERATE = ["x = 1\n\\\n\ny = 2\n", "\\\n\n", "", " ", "\n", "\n\n\n", "\t", "   \n  \n", "\ufeff", "\ufeffx = 1\n", "\x00", "x = 1\x00\n", "#", "# only a comment", "pass", "...", "\\", "\\\n",
               "'''", "'unterminated", "(", ")", "x = (", "def f(", "def f():", "class", "if x:", "    x = 1", "\tx = 1\n\ty = 2\n", "  if x:\n      y = 1\n",
               "x = 1\r\ny = 2\r\n", "x = 1\ry = 2\r", "x = 1\x0cy = 2", "\x0c\nx = 1\n", "x = '\u2028'\n", "# pyrefact: skip_file", "x = 1  # pyrefact: ignore\n",
               "print 'python2'", "exec 'x'", "x = 0777", "async = 1", "match = 1; case = 2; type = 3; print(match, case, type)\n", "lambda: (yield)",
